@@ -29,7 +29,7 @@ func raceBinary() (string, string) {
 		self, _ := os.Executable()
 		dir := filepath.Dir(self)
 		raceBin = filepath.Join(dir, "racecmd"+filepath.Ext(self)+strings.TrimPrefix(filepath.Base(self), "harness"))
-		src := os.Getenv("VERIF_HARNESS_SRC")
+		src := os.Getenv("VERIF_HARNESS_SRC") // set by bin/check to its own harness directory
 		if src == "" {
 			src = "/verif/harness"
 		}
